@@ -149,6 +149,11 @@ var c15Cases = []c15Case{
 	// keys written with escape sequences and inherited through allOf
 	{"{ // {allOf: \"@base\"}\n  \"own\": 1\n}", [][2]string{{"@base", "{\n  \"a\\\"b\": 1,\n  \"c\\\\d\": 2,\n  \"e\\nf\": 3\n}"}}},
 	{"{ // {allOf: [\"@base\", \"@b2\"]}\n}", [][2]string{{"@base", "{\n  \"t\\tab\": 1\n}"}, {"@b2", "{\n  \"q\\\"\": \"v\"\n}"}}},
+	// a list of alternatives that also spells out its type
+	{`@a | @b // {type: "mixed"}`, [][2]string{{"@a", `1`}, {"@b", `"s"`}}},
+	{"{\n  \"x\": @a | @b // {type: \"mixed\"}\n}", [][2]string{{"@a", `{"y": 1}`}, {"@b", `"s"`}}},
+	{"[\n  @a | @b // {type: \"mixed\"}\n]", [][2]string{{"@a", `[1]`}, {"@b", `true`}}},
+	{`1 // {type: "mixed", or: ["@a", "@b"]}`, [][2]string{{"@a", `1`}, {"@b", `"s"`}}},
 }
 
 // ZZC15Types: user types, or, enum, allOf, key shortcuts, optional recursion.
